@@ -3,9 +3,29 @@ import re, copy
 from lxml import etree
 from . import xmlsx
 
+class Spec:
+    """The naming convention's tables as the oracles read them: written down here (AKN naming convention as bluebell documents it), NOT
+    read from xml.py - the model is regenerated from the live tables, the oracles are not, so a change to a table shows up as a
+    difference between what the code does and what the convention prescribes."""
+    id_exempt = {'abbr', 'act', 'akomaNtoso', 'amendment', 'amendmentBody', 'amendmentList', 'attachments', 'b', 'bill', 'body', 'br',
+                 'collectionBody', 'components', 'content', 'coverPage', 'debate', 'debateBody', 'debateReport', 'del', 'doc',
+                 'documentCollection', 'heading', 'i', 'img', 'inline', 'ins', 'judgment', 'judgmentBody', 'mainBody', 'meta', 'num',
+                 'officialGazette', 'portion', 'portionBody', 'remark', 'span', 'statement', 'sub', 'subheading', 'sup', 'td', 'th', 'tr', 'u'}
+    id_exempt_but_pass_to_children = {'arguments', 'background', 'conclusions', 'decision', 'header', 'intro', 'introduction', 'motivation',
+                                      'preamble', 'preface', 'remedies', 'wrapUp'}
+    num_expected = {'alinea', 'article', 'book', 'chapter', 'clause', 'division', 'indent', 'item', 'level', 'list', 'paragraph', 'part',
+                    'point', 'proviso', 'rule', 'section', 'subchapter', 'subclause', 'subdivision', 'sublist', 'subparagraph', 'subpart',
+                    'subrule', 'subsection', 'subtitle', 'title', 'tome', 'transitional'}
+    aliases = {'alinea': 'al', 'amendmentBody': 'body', 'article': 'art', 'attachment': 'att', 'blockList': 'list', 'chapter': 'chp',
+               'citation': 'cit', 'citations': 'cits', 'clause': 'cl', 'component': 'cmp', 'components': 'cmpnts', 'componentRef': 'cref',
+               'debateBody': 'body', 'debateSection': 'dbsect', 'division': 'dvs', 'documentRef': 'dref', 'eventRef': 'eref',
+               'judgmentBody': 'body', 'listIntroduction': 'intro', 'listWrapUp': 'wrapup', 'mainBody': 'body', 'paragraph': 'para',
+               'quotedStructure': 'qstr', 'quotedText': 'qtext', 'recital': 'rec', 'recitals': 'recs', 'section': 'sec', 'subchapter': 'subchp',
+               'subclause': 'subcl', 'subdivision': 'subdvs', 'subparagraph': 'subpara', 'subsection': 'subsec', 'temporalGroup': 'tmpg',
+               'wrapUp': 'wrapup'}
+
 def tables():
-    from bluebell.xml import IdGenerator as G
-    return G
+    return Spec
 
 def local(el):
     return xmlsx.local(el.tag)
@@ -22,14 +42,18 @@ def iter_outside_meta(root):
         yield el
         stack.extend(reversed(list(el)))
 
+# the property's own list of elements that must not carry an eId (document roots, bodies, containers, inline formatting,
+# num/heading/content, table rows and cells): written down here, independently of the tables in xml.py - a change to those
+# tables that makes one of these elements identifiable (or another element exempt) is what the oracle has to see
+NO_EID = Spec.id_exempt | Spec.id_exempt_but_pass_to_children
+
 def c07_oracle(root, prefix, explicit_ids=False):
     """presence/absence, uniqueness, non-empty, no whitespace, prefix. Returns None or description."""
-    G = tables()
     seen = {}
     for el in iter_outside_meta(root):
         tag = local(el)
         eid = el.get('eId')
-        ident = tag not in G.id_exempt and tag not in G.id_exempt_but_pass_to_children
+        ident = tag not in NO_EID
         if ident:
             if eid is None or eid == '':
                 return 'identifiable element <%s> has no eId' % tag
